@@ -11,6 +11,7 @@ import (
 	"net"
 	"net/http"
 	"net/http/httptest"
+	"net/url"
 	"strings"
 	"time"
 
@@ -180,6 +181,10 @@ func runCase(c protox.Case) (res protox.Result) {
 	json.Unmarshal(c.Data, &d)
 	in, _ := hex.DecodeString(d.Hex)
 	conf := world.Conf{"rtsp.enable": true, "hls.enable": true, "relay_push.enable": d.Surface == "rtmp-push", "relay_push.addr_list": []interface{}{"$W-origin:1935"}}
+	if d.Surface == "hlssub" {
+		conf["hls.sub_session_hash_key"] = "k1"
+		conf["hls.cleanup_mode"] = 0
+	}
 	if d.Surface == "rtspauth" {
 		conf["simple_auth.key"] = "q191201771"
 		conf["simple_auth.sub_rtsp_enable"] = true
@@ -211,6 +216,41 @@ func runCase(c protox.Case) (res protox.Result) {
 		if err == nil {
 			victim = p.Conn
 			err = feed(w, victim, in, d.Frag)
+		}
+	case "hlssub":
+		sid := ""
+		get := func(path, remote string) {
+			req, _ := http.NewRequest("GET", "http://h"+path, nil)
+			req.RequestURI = path
+			req.RemoteAddr = remote
+			rec := httptest.NewRecorder()
+			if e := guardHttp(w, &res, func() { logic.VerifServeHls(w.SM, rec, req) }); e != nil {
+				err = e
+			}
+			if loc := rec.Header().Get("Location"); loc != "" {
+				if u, e := url.Parse(loc); e == nil && u.Query().Get("session_id") != "" {
+					sid = u.Query().Get("session_id")
+				}
+			}
+		}
+		for _, k := range strings.Fields(string(in)) {
+			switch k {
+			case "G":
+				get("/hls/s.m3u8", "10.1.1.3:1")
+			case "Gs":
+				get("/hls/s.m3u8?session_id="+sid, "10.1.1.3:1")
+			case "Ts":
+				get("/hls/s-1-0.ts?session_id="+sid, "10.1.1.3:1")
+			case "O":
+				get("/hls/s.m3u8?session_id="+sid, "10.1.1.9:1")
+			case "B":
+				w.SM.CtrlAddIpBlacklist(base.ApiCtrlAddIpBlacklistReq{Ip: "10.1.1.3", DurationSec: 100})
+			case "Bx":
+				w.SM.CtrlAddIpBlacklist(base.ApiCtrlAddIpBlacklistReq{Ip: "10.1.1.3", DurationSec: -1})
+			}
+			if err != nil {
+				break
+			}
 		}
 	case "rtspauth":
 		p := w.NewRtspPeer(rtspUri)
